@@ -49,11 +49,22 @@ impl Sut {
         self.evictions.push((self.ops.len(), p, map, id));
         evict_from(&mut self.parsers[p], map, id)
     }
+    /// parse_bytes takes any slice: the library is handed a copy of `buf` that starts 0, 1, 2 or 3
+    /// bytes off an aligned address, in rotation (a payload inside a captured frame is not aligned;
+    /// nothing may depend on where the slice sits in memory).
     pub fn parse(&mut self, p: usize, buf: &[u8]) -> Vec<NetflowPacket> {
         self.ops.push((p, buf.to_vec()));
         self.calls += 1;
         self.bytes += buf.len() as u64;
-        self.parsers[p].parse_bytes(buf)
+        let off = (self.calls % 4) as usize;
+        if off == 0 {
+            return self.parsers[p].parse_bytes(buf);
+        }
+        // u64 backing store: 8-byte aligned base, so `off` is the misalignment
+        let mut store: Vec<u64> = vec![0xAAAA_AAAA_AAAA_AAAAu64; (buf.len() + off) / 8 + 1];
+        let bytes: &mut [u8] = unsafe { std::slice::from_raw_parts_mut(store.as_mut_ptr() as *mut u8, store.len() * 8) };
+        bytes[off..off + buf.len()].copy_from_slice(buf);
+        self.parsers[p].parse_bytes(&bytes[off..off + buf.len()])
     }
     pub fn replay_json(&self) -> Value {
         let mut ops: Vec<Value> = vec![];
